@@ -658,6 +658,7 @@ func Run(cfg hx.Config) error {
 	runSQL(r, cfg, rnd)
 	runWFN(r, cfg, rnd)
 	runDuration(r, cfg, rnd)
+	runEncodeAliasing(r, cfg, rnd)
 	runJSON(r, cfg, rnd)
 	runScan(r, cfg, rnd)
 	// the zero Digest (recorded finding): it prints as "" which its own decoder rejects
